@@ -23,8 +23,87 @@ let bytes_of_hex (s : string) : BinNums.coq_N list =
 
 let nmax a b = if BinNat.N.leb a b then b else a
 
-(* model side: filled in per format below; "-" = no model for this format (spec only) *)
-let model_hooks : (string * (string list -> string list -> string list)) list ref = ref []
+(* ---- model side ------------------------------------------------------------ *)
+open BitmapModel
+open RegionModel
+
+let hex2 (b : BinNums.coq_N) : string = Printf.sprintf "%02x" (int_of_n b)
+let hex_of_bytes (l : BinNums.coq_N list) : string = String.concat "" (Stdlib.List.map hex2 l)
+let maxa = n_of_hex "ffffffffffffffff"
+
+(* "xx*n,xx*n" -> bytes *)
+let parse_rle (s : string) : BinNums.coq_N list =
+  if s = "-" then [] else
+  Stdlib.List.concat_map (fun t -> match split_on '*' t with
+    | [b; n] -> let v = n_of_hex b in Stdlib.List.init (int_of_string ("0x" ^ n)) (fun _ -> v)
+    | _ -> failwith ("bad rle " ^ t)) (split_on ',' s)
+
+let show_res f = function Val a -> f a | Oob -> "OOB" | Fuel -> "FUEL"
+
+let buf_for f l fill =
+  let n = (int_of_n (BinNat.N.shiftr (Wrap64.wsub l f) (n_of_int 3))) + 1 in
+  Stdlib.List.init n (fun _ -> n_of_hex fill)
+
+(* the three page-map queries on an array of file maps *)
+let maps_op (ms : fmap list) (o : string) : string =
+  match split_on ':' o with
+  | ["s"; i] -> show_res (function Some p -> "1:" ^ hex_of_n p | None -> "0") (find_mapped_pfn true ms (n_of_hex i))
+  | ["c"; i] -> show_res hex_of_n (find_unmapped_pfn true ms (n_of_hex i))
+  | ["g"; f; l; fill] ->
+      let f = n_of_hex f and l = n_of_hex l in
+      show_res hex_of_bytes (get_pfn_map_bits ms f l (buf_for f l fill))
+  | _ -> "?"
+
+let diskdump_model (fields : string list) (ops : string list) : string list =
+  match fields with
+  | [g; a] ->
+      let (bs, bb, maxm, wins) = match split_on ':' g with
+        | [bs; bb; mm; w] -> (n_of_hex bs, n_of_hex bb, n_of_hex mm,
+                              Stdlib.List.map (fun x -> match split_on '-' x with
+                                | [a; b] -> (n_of_hex a, n_of_hex b) | _ -> failwith "bad window") (split_on ',' w))
+        | _ -> failwith "bad diskdump geometry" in
+      let area = parse_rle (String.sub a 2 (String.length a - 2)) in
+      if Stdlib.List.length area > 20000 then ["-"] else
+      let file_maps = Stdlib.List.map (fun (st, en) ->
+        match DdGeomModel.dd_file_regions false BinNums.N0 area bs bb maxm st en BinNums.N0 [] with
+        | (ROk rs, _) -> { regions = rs; start_pfn = st; end_pfn = en }
+        | _ -> failwith "model: file regions") wins in
+      let file_maps = sort_maps file_maps in
+      let mem_map = match DdGeomModel.dd_mem_regions false BinNums.N0 area bs bb maxm [] with
+        | (ROk rs, _) -> [ { regions = rs; start_pfn = BinNums.N0; end_pfn = maxa } ]
+        | _ -> failwith "model: memory regions" in
+      let g = DdGeomModel.read_bitmap_geom false bs bb maxm maxa in
+      Stdlib.List.map (fun o ->
+        if o.[0] = 'R' then
+          show_res (fun b -> if b then "ok" else "nodata")
+            (DdGeomModel.dd_page_stored file_maps g.DdGeomModel.max_pfn' (n_of_hex (String.sub o 2 (String.length o - 2))))
+        else maps_op (if o.[0] = 'F' then file_maps else mem_map) (String.sub o 1 (String.length o - 1))) ops
+  | _ -> failwith "bad diskdump fields"
+
+let elf_model (fields : string list) (ops : string list) : string list =
+  match fields with
+  | [f] ->
+      let segs = match split_at f ":" with
+        | (_, "") -> []
+        | (_, l) -> Stdlib.List.map (fun x -> match split_on ':' x with
+            | [p; fs; ms] -> { ElfBitsModel.phys = n_of_hex p; filesz = n_of_hex fs; memsz = n_of_hex ms }
+            | _ -> failwith "bad segment") (split_on ',' l) in
+      let sh = n_of_int 12 in
+      Stdlib.List.map (fun o ->
+        if o.[0] = 'R' then "?" else
+        let ismem = (o.[0] = 'M') in
+        match split_on ':' (String.sub o 1 (String.length o - 1)) with
+        | ["s"; i] -> (match ElfBitsModel.elf_find_set ismem sh segs None (n_of_hex i) with
+                       | Some p -> "1:" ^ hex_of_n p | None -> "0")
+        | ["c"; i] -> hex_of_n (ElfBitsModel.elf_find_clear ismem sh segs None (n_of_hex i))
+        | ["g"; f; l; fill] ->
+            let f = n_of_hex f and l = n_of_hex l in
+            show_res hex_of_bytes (ElfBitsModel.elf_get_bits ismem sh segs None f l (buf_for f l fill))
+        | _ -> "?") ops
+  | _ -> failwith "bad elf fields"
+
+let model_hooks : (string * (string list -> string list -> string list)) list ref =
+  ref [ "d", diskdump_model; "e", elf_model ]
 
 let run_case (line : string) : string =
   let (hd, rest) = split_at line " T " in
@@ -34,7 +113,7 @@ let run_case (line : string) : string =
   | "E" :: fmt :: fields ->
       (match Stdlib.List.assoc_opt fmt !model_hooks with
        | None -> "-"
-       | Some f -> "E " ^ String.concat " " (f fields (Util.words ops)))
+       | Some f -> (match f fields (Util.words ops) with ["-"] -> "-" | l -> "E " ^ String.concat " " l))
   | _ -> failwith "bad case"
 
 let spec_case (line : string) : string =
